@@ -4,7 +4,7 @@
    version.Parse (C03) and parse_date = time.Parse(RFC1123Z); the tie instantiates parse_version with the C03
    model and parse_date with the answers of the real time.Parse, asked directly. *)
 From Coq Require Import List Ascii String Bool Arith Lia.
-Require Import GS R2 CL CL2.
+Require Import GS R2 CL CL2 CL3.
 Import ListNotations.
 
 Section C17.
@@ -21,6 +21,12 @@ Section C17.
     CL.parse V T parse_version parse_date (unlines (doc V T es k)) = Some (map (entry_val V T) es).
   Proof. exact (C17_parse_text V T parse_version parse_date). Qed.
 
+  (* the same changelog without its final newline: the last trailer line ends the text *)
+  Theorem C17_parse_render_no_final_newline : forall es, es <> [] -> Forall (rentry_ok V T parse_version parse_date) es ->
+    Forall (free nl) (doc V T es 0) ->
+    CL.parse V T parse_version parse_date (join [nl] (doc V T es 0)) = Some (map (entry_val V T) es).
+  Proof. exact (C17_parse_text_open V T parse_version parse_date). Qed.
+
   (* never a silently shortened list, for ANY input: when Parse succeeds, every header line of the input
      (a line that does not start with a blank and is not blank) has produced an entry - so an input that ends
      inside an entry, or has a malformed header, trailer or date, gives either all entries or an error *)
@@ -36,6 +42,7 @@ Section C17.
   Proof. exact (CL.C17_fuel V T parse_version parse_date). Qed.
 End C17.
 Print Assumptions C17_parse_render.
+Print Assumptions C17_parse_render_no_final_newline.
 Print Assumptions C17_never_silently_shortened.
 Print Assumptions C17_fuel_suffices.
 
